@@ -5,8 +5,9 @@ From Coq Require Import List Bool Arith ZArith QArith.
 From GV Require Import Base.Outcome Base.AMap Model.GState Model.Creation Model.Query
      Model.Components Model.Cluster Model.Square Spec.ClusterDef Spec.ClusterSpec
      Proofs.ClusterDefOk Proofs.ClusterOk Proofs.ClusterEqOk.
+From GV Require Import Proofs.ClusterTotalOk.
 From GV Require Import Spec.CompSpec Spec.EdgeAdj Spec.History Proofs.WFDefs Proofs.HistoryOk Proofs.ClusterWF
-     Proofs.ClusterDirOk Proofs.ClusterRangeOk Proofs.SquareOk Proofs.ClusterRangeWF.
+     Proofs.ClusterDirOk Proofs.ClusterRangeOk Proofs.SquareOk Proofs.ClusterRangeWF Proofs.ClusterTotalOk.
 Import ListNotations.
 Close Scope Q_scope.
 
@@ -116,6 +117,13 @@ Section C11.
   Theorem C11_subset_defined : forall (g : gstate) S mS v,
     S <> [] -> triangles teqb g (Some S) = Ok mS -> In v S -> exists a, lookup teqb v mS = Some a.
   Proof. exact (triangles_defined teqb teqb_spec). Qed.
+  (* average_clustering = the mean of the counted values of the clustering map (all of them
+     with count_zeros, the non-zero ones without); None (NaN) when nothing is counted *)
+  Theorem C11_average_is_mean : forall (g : gstate) nn cz a,
+    average_clustering teqb g nn cz = Ok a ->
+    exists m, clustering teqb g nn = Ok m /\ opt_Qeq a (mean cz (map snd m)).
+  Proof. exact (average_clustering_is_mean teqb). Qed.
+
   (* ---- model = definition (undirected, unweighted) ----
      for every graph state passing the executable coherence test nbr_ok_b (node list
      duplicate-free; neighbour query total, inside the node list, symmetric - evaluated by the
@@ -263,4 +271,20 @@ Section C11_end_to_end.
     directed (sp g) = false ->
     square_clustering teqb g nn = Ok m -> lookup teqb v m = Some c -> (0 <= c /\ c <= 1)%Q.
   Proof. exact (square_unit_wf teqb tltb teqb_spec tltb_total). Qed.
+
+  (* TOTALITY: on every coherent single-edge graph state, with node_names = None or any list of
+     nodes of the graph, clustering (both kinds) and average_clustering RETURN, and on an
+     undirected one so do triangles, generalized_degree and transitivity: no unwrap fails and no
+     float division by zero (inf / NaN, a Panic site of the model) happens - Fagiolo's and the
+     undirected denominators are positive whenever the numerator is *)
+  Theorem C11_total_wf : forall (g : gstate), WF g -> forall nn,
+    multi (sp g) = false ->
+    (forall l, nn = Some l -> forall v, In v l -> In v (get_all_node_names g)) ->
+    (exists m, clustering teqb g nn = Ok m) /\
+    (forall cz, exists a, average_clustering teqb g nn cz = Ok a) /\
+    (directed (sp g) = false ->
+       (exists m, triangles teqb g nn = Ok m) /\
+       (exists m, generalized_degree teqb g nn = Ok m) /\
+       (exists q, transitivity teqb g = Ok q)).
+  Proof. exact (cluster_total_wf teqb tltb teqb_spec tltb_total). Qed.
 End C11_end_to_end.
